@@ -1,0 +1,545 @@
+// Copyright 2020-2025 Buf Technologies, Inc.
+//
+// Licensed under the Apache License, Version 2.0 (the "License");
+// you may not use this file except in compliance with the License.
+// You may obtain a copy of the License at
+//
+//      http://www.apache.org/licenses/LICENSE-2.0
+//
+// Unless required by applicable law or agreed to in writing, software
+// distributed under the License is distributed on an "AS IS" BASIS,
+// WITHOUT WARRANTIES OR CONDITIONS OF ANY KIND, either express or implied.
+// See the License for the specific language governing permissions and
+// limitations under the License.
+
+//go:build verif
+
+package bufcheckserverhandle
+
+// C03/C04 contracts for the loop-free breaking-change PAIR handlers (gocv verifier, see /verif/DESIGN.md).
+// Comment-only. Spec functions, lemmas and trusted contracts of other packages: /verif/specs/C03_pairs.spec.
+//
+// Accessor purity of the descriptor interfaces (assumption).
+//@ trusted pure interface bufprotosource.Field
+//@ trusted pure interface bufprotosource.Method
+//@ trusted pure interface bufprotosource.Service
+//@ trusted pure interface bufprotosource.Message
+//@ trusted pure interface bufprotosource.Enum
+//@ trusted pure interface bufprotosource.Oneof
+//@ trusted pure interface bufprotosource.FeaturesDescriptor
+//@ trusted pure interface bufcheckserverutil.Request
+// protobuf runtime descriptors (external; accessor purity is an assumption)
+//@ trusted pure interface protoreflect.FieldDescriptor
+//@ trusted pure interface protoreflect.MessageDescriptor
+//@ trusted pure interface protoreflect.EnumDescriptor
+//@ trusted pure interface protoreflect.OneofDescriptor
+//
+// ---------- small helpers ----------
+//
+// message text only (no effect on the response)
+//@ pure func fieldDescriptionWithName(field, name) (r)
+//@   property C03 C04
+//@ pure func fieldDescription(field) (r)
+//@   property C03 C04
+//
+// first non-nil location
+//@ func withBackupLocation(locs) (r)
+//@   property C03 C04
+//@   ensures first-non-nil: forall i int :: 0 <= i && i < len(locs) && locs[i] != nil && (forall j int :: 0 <= j && j < i ==> locs[j] == nil) ==> r == locs[i]
+//@   ensures all-nil: (forall i int :: 0 <= i && i < len(locs) ==> locs[i] == nil) ==> r == nil
+//@   loop 0 invariant forall j int :: 0 <= j && j < $i ==> locs[j] == nil
+//
+// ---------- RPC pair handlers ----------
+//
+// RPC_SAME_REQUEST_TYPE: the request type name changed <==> one annotation at the request type.
+//@ func handleBreakingRPCSameRequestType(responseWriter, request, method, previousMethod) (err)
+//@   property C03 C04
+//@   modifies ghost.annCount, ghost.annLocs, ghost.annFiles
+//@   ensures no-error: err == nil
+//@   ensures changed-reported {C03}: previousMethod.InputTypeName() != method.InputTypeName() ==> ghost.annCount == old(ghost.annCount) + 1 && ghost.annLocs == add(old(ghost.annLocs), method.InputTypeLocation()) && ghost.annFiles == add(old(ghost.annFiles), method.File().Path())
+//@   ensures same-silent {C04}: previousMethod.InputTypeName() == method.InputTypeName() ==> ghost.annCount == old(ghost.annCount) && ghost.annLocs == old(ghost.annLocs) && ghost.annFiles == old(ghost.annFiles)
+//
+// RPC_SAME_RESPONSE_TYPE
+//@ func handleBreakingRPCSameResponseType(responseWriter, request, method, previousMethod) (err)
+//@   property C03 C04
+//@   modifies ghost.annCount, ghost.annLocs, ghost.annFiles
+//@   ensures no-error: err == nil
+//@   ensures changed-reported {C03}: previousMethod.OutputTypeName() != method.OutputTypeName() ==> ghost.annCount == old(ghost.annCount) + 1 && ghost.annLocs == add(old(ghost.annLocs), method.OutputTypeLocation()) && ghost.annFiles == add(old(ghost.annFiles), method.File().Path())
+//@   ensures same-silent {C04}: previousMethod.OutputTypeName() == method.OutputTypeName() ==> ghost.annCount == old(ghost.annCount) && ghost.annLocs == old(ghost.annLocs) && ghost.annFiles == old(ghost.annFiles)
+//
+// RPC_SAME_CLIENT_STREAMING
+//@ func handleBreakingRPCSameClientStreaming(responseWriter, request, method, previousMethod) (err)
+//@   property C03 C04
+//@   modifies ghost.annCount, ghost.annLocs, ghost.annFiles
+//@   ensures no-error: err == nil
+//@   ensures changed-reported {C03}: previousMethod.ClientStreaming() != method.ClientStreaming() ==> ghost.annCount == old(ghost.annCount) + 1 && ghost.annLocs == add(old(ghost.annLocs), method.Location()) && ghost.annFiles == add(old(ghost.annFiles), method.File().Path())
+//@   ensures same-silent {C04}: previousMethod.ClientStreaming() == method.ClientStreaming() ==> ghost.annCount == old(ghost.annCount) && ghost.annLocs == old(ghost.annLocs) && ghost.annFiles == old(ghost.annFiles)
+//
+// RPC_SAME_SERVER_STREAMING
+//@ func handleBreakingRPCSameServerStreaming(responseWriter, request, method, previousMethod) (err)
+//@   property C03 C04
+//@   modifies ghost.annCount, ghost.annLocs, ghost.annFiles
+//@   ensures no-error: err == nil
+//@   ensures changed-reported {C03}: previousMethod.ServerStreaming() != method.ServerStreaming() ==> ghost.annCount == old(ghost.annCount) + 1 && ghost.annLocs == add(old(ghost.annLocs), method.Location()) && ghost.annFiles == add(old(ghost.annFiles), method.File().Path())
+//@   ensures same-silent {C04}: previousMethod.ServerStreaming() == method.ServerStreaming() ==> ghost.annCount == old(ghost.annCount) && ghost.annLocs == old(ghost.annLocs) && ghost.annFiles == old(ghost.annFiles)
+//
+// RPC_SAME_IDEMPOTENCY_LEVEL
+//@ func handleBreakingRPCSameIdempotencyLevel(responseWriter, request, method, previousMethod) (err)
+//@   property C03 C04
+//@   modifies ghost.annCount, ghost.annLocs, ghost.annFiles
+//@   ensures no-error: err == nil
+//@   ensures changed-reported {C03}: previousMethod.IdempotencyLevel() != method.IdempotencyLevel() ==> ghost.annCount == old(ghost.annCount) + 1 && ghost.annLocs == add(old(ghost.annLocs), method.IdempotencyLevelLocation()) && ghost.annFiles == add(old(ghost.annFiles), method.File().Path())
+//@   ensures same-silent {C04}: previousMethod.IdempotencyLevel() == method.IdempotencyLevel() ==> ghost.annCount == old(ghost.annCount) && ghost.annLocs == old(ghost.annLocs) && ghost.annFiles == old(ghost.annFiles)
+//
+// ---------- field name handlers ----------
+//
+// FIELD_SAME_NAME: the name (for extensions: the full name) changed <==> one annotation at the field's name.
+//@ func handleBreakingFieldSameName(responseWriter, request, field, previousField) (err)
+//@   property C03 C04
+//@   modifies ghost.annCount, ghost.annLocs, ghost.annFiles
+//@   ensures no-error: err == nil
+//@   ensures changed-reported {C03}: a_nameChanged(field, previousField) ==> ghost.annCount == old(ghost.annCount) + 1 && ghost.annLocs == add(old(ghost.annLocs), field.NameLocation()) && ghost.annFiles == add(old(ghost.annFiles), field.File().Path())
+//@   ensures same-silent {C04}: !a_nameChanged(field, previousField) ==> ghost.annCount == old(ghost.annCount) && ghost.annLocs == old(ghost.annLocs) && ghost.annFiles == old(ghost.annFiles)
+//@   reveal a_nameChanged
+//
+// FIELD_SAME_JSON_NAME: not an extension and the JSON name changed <==> one annotation at the json_name option
+// (at the field when the option is not written out).
+//@ func handleBreakingFieldSameJSONName(responseWriter, request, field, previousField) (err)
+//@   property C03 C04
+//@   modifies ghost.annCount, ghost.annLocs, ghost.annFiles
+//@   ensures no-error: err == nil
+//@   ensures changed-reported {C03}: a_jsonNameChanged(field, previousField) ==> ghost.annCount == old(ghost.annCount) + 1 && ghost.annLocs == add(old(ghost.annLocs), a_loc2(field.JSONNameLocation(), field.Location())) && ghost.annFiles == add(old(ghost.annFiles), field.File().Path())
+//@   ensures same-silent {C04}: !a_jsonNameChanged(field, previousField) ==> ghost.annCount == old(ghost.annCount) && ghost.annLocs == old(ghost.annLocs) && ghost.annFiles == old(ghost.annFiles)
+//@   reveal a_jsonNameChanged, a_loc2
+//
+// ---------- tracked file options (via checkFileSameValue, contract in zz_verif_contracts.go) ----------
+//
+// FILE_SAME_<OPTION>: the option's value changed <==> one annotation at the option (file-level when the option is not written out).
+// FILE_SAME_CC_ENABLE_ARENAS
+//@ func handleBreakingFileSameCcEnableArenas(responseWriter, request, file, previousFile) (err)
+//@   property C03 C04
+//@   modifies ghost.annCount, ghost.annLocs, ghost.annFiles
+//@   ensures no-error: err == nil
+//@   ensures changed-reported {C03}: previousFile.CcEnableArenas() != file.CcEnableArenas() ==> ghost.annCount == old(ghost.annCount) + 1 && file.CcEnableArenasLocation() in ghost.annLocs && file.Path() in ghost.annFiles
+//@   ensures same-silent {C04}: previousFile.CcEnableArenas() == file.CcEnableArenas() ==> ghost.annCount == old(ghost.annCount)
+//
+// FILE_SAME_CC_GENERIC_SERVICES
+//@ func handleBreakingFileSameCcGenericServices(responseWriter, request, file, previousFile) (err)
+//@   property C03 C04
+//@   modifies ghost.annCount, ghost.annLocs, ghost.annFiles
+//@   ensures no-error: err == nil
+//@   ensures changed-reported {C03}: previousFile.CcGenericServices() != file.CcGenericServices() ==> ghost.annCount == old(ghost.annCount) + 1 && file.CcGenericServicesLocation() in ghost.annLocs && file.Path() in ghost.annFiles
+//@   ensures same-silent {C04}: previousFile.CcGenericServices() == file.CcGenericServices() ==> ghost.annCount == old(ghost.annCount)
+//
+// FILE_SAME_CSHARP_NAMESPACE
+//@ func handleBreakingFileSameCsharpNamespace(responseWriter, request, file, previousFile) (err)
+//@   property C03 C04
+//@   modifies ghost.annCount, ghost.annLocs, ghost.annFiles
+//@   ensures no-error: err == nil
+//@   ensures changed-reported {C03}: previousFile.CsharpNamespace() != file.CsharpNamespace() ==> ghost.annCount == old(ghost.annCount) + 1 && file.CsharpNamespaceLocation() in ghost.annLocs && file.Path() in ghost.annFiles
+//@   ensures same-silent {C04}: previousFile.CsharpNamespace() == file.CsharpNamespace() ==> ghost.annCount == old(ghost.annCount)
+//
+// FILE_SAME_GO_PACKAGE
+//@ func handleBreakingFileSameGoPackage(responseWriter, request, file, previousFile) (err)
+//@   property C03 C04
+//@   modifies ghost.annCount, ghost.annLocs, ghost.annFiles
+//@   ensures no-error: err == nil
+//@   ensures changed-reported {C03}: previousFile.GoPackage() != file.GoPackage() ==> ghost.annCount == old(ghost.annCount) + 1 && file.GoPackageLocation() in ghost.annLocs && file.Path() in ghost.annFiles
+//@   ensures same-silent {C04}: previousFile.GoPackage() == file.GoPackage() ==> ghost.annCount == old(ghost.annCount)
+//
+// FILE_SAME_JAVA_GENERIC_SERVICES
+//@ func handleBreakingFileSameJavaGenericServices(responseWriter, request, file, previousFile) (err)
+//@   property C03 C04
+//@   modifies ghost.annCount, ghost.annLocs, ghost.annFiles
+//@   ensures no-error: err == nil
+//@   ensures changed-reported {C03}: previousFile.JavaGenericServices() != file.JavaGenericServices() ==> ghost.annCount == old(ghost.annCount) + 1 && file.JavaGenericServicesLocation() in ghost.annLocs && file.Path() in ghost.annFiles
+//@   ensures same-silent {C04}: previousFile.JavaGenericServices() == file.JavaGenericServices() ==> ghost.annCount == old(ghost.annCount)
+//
+// FILE_SAME_JAVA_MULTIPLE_FILES
+//@ func handleBreakingFileSameJavaMultipleFiles(responseWriter, request, file, previousFile) (err)
+//@   property C03 C04
+//@   modifies ghost.annCount, ghost.annLocs, ghost.annFiles
+//@   ensures no-error: err == nil
+//@   ensures changed-reported {C03}: previousFile.JavaMultipleFiles() != file.JavaMultipleFiles() ==> ghost.annCount == old(ghost.annCount) + 1 && file.JavaMultipleFilesLocation() in ghost.annLocs && file.Path() in ghost.annFiles
+//@   ensures same-silent {C04}: previousFile.JavaMultipleFiles() == file.JavaMultipleFiles() ==> ghost.annCount == old(ghost.annCount)
+//
+// FILE_SAME_JAVA_OUTER_CLASSNAME
+//@ func handleBreakingFileSameJavaOuterClassname(responseWriter, request, file, previousFile) (err)
+//@   property C03 C04
+//@   modifies ghost.annCount, ghost.annLocs, ghost.annFiles
+//@   ensures no-error: err == nil
+//@   ensures changed-reported {C03}: previousFile.JavaOuterClassname() != file.JavaOuterClassname() ==> ghost.annCount == old(ghost.annCount) + 1 && file.JavaOuterClassnameLocation() in ghost.annLocs && file.Path() in ghost.annFiles
+//@   ensures same-silent {C04}: previousFile.JavaOuterClassname() == file.JavaOuterClassname() ==> ghost.annCount == old(ghost.annCount)
+//
+// FILE_SAME_JAVA_PACKAGE
+//@ func handleBreakingFileSameJavaPackage(responseWriter, request, file, previousFile) (err)
+//@   property C03 C04
+//@   modifies ghost.annCount, ghost.annLocs, ghost.annFiles
+//@   ensures no-error: err == nil
+//@   ensures changed-reported {C03}: previousFile.JavaPackage() != file.JavaPackage() ==> ghost.annCount == old(ghost.annCount) + 1 && file.JavaPackageLocation() in ghost.annLocs && file.Path() in ghost.annFiles
+//@   ensures same-silent {C04}: previousFile.JavaPackage() == file.JavaPackage() ==> ghost.annCount == old(ghost.annCount)
+//
+// FILE_SAME_OBJC_CLASS_PREFIX
+//@ func handleBreakingFileSameObjcClassPrefix(responseWriter, request, file, previousFile) (err)
+//@   property C03 C04
+//@   modifies ghost.annCount, ghost.annLocs, ghost.annFiles
+//@   ensures no-error: err == nil
+//@   ensures changed-reported {C03}: previousFile.ObjcClassPrefix() != file.ObjcClassPrefix() ==> ghost.annCount == old(ghost.annCount) + 1 && file.ObjcClassPrefixLocation() in ghost.annLocs && file.Path() in ghost.annFiles
+//@   ensures same-silent {C04}: previousFile.ObjcClassPrefix() == file.ObjcClassPrefix() ==> ghost.annCount == old(ghost.annCount)
+//
+// FILE_SAME_OPTIMIZE_FOR
+//@ func handleBreakingFileSameOptimizeFor(responseWriter, request, file, previousFile) (err)
+//@   property C03 C04
+//@   modifies ghost.annCount, ghost.annLocs, ghost.annFiles
+//@   ensures no-error: err == nil
+//@   ensures changed-reported {C03}: previousFile.OptimizeFor() != file.OptimizeFor() ==> ghost.annCount == old(ghost.annCount) + 1 && file.OptimizeForLocation() in ghost.annLocs && file.Path() in ghost.annFiles
+//@   ensures same-silent {C04}: previousFile.OptimizeFor() == file.OptimizeFor() ==> ghost.annCount == old(ghost.annCount)
+//@   use a_optimize-mode-string-injective
+//
+// FILE_SAME_PHP_CLASS_PREFIX
+//@ func handleBreakingFileSamePhpClassPrefix(responseWriter, request, file, previousFile) (err)
+//@   property C03 C04
+//@   modifies ghost.annCount, ghost.annLocs, ghost.annFiles
+//@   ensures no-error: err == nil
+//@   ensures changed-reported {C03}: previousFile.PhpClassPrefix() != file.PhpClassPrefix() ==> ghost.annCount == old(ghost.annCount) + 1 && file.PhpClassPrefixLocation() in ghost.annLocs && file.Path() in ghost.annFiles
+//@   ensures same-silent {C04}: previousFile.PhpClassPrefix() == file.PhpClassPrefix() ==> ghost.annCount == old(ghost.annCount)
+//
+// FILE_SAME_PHP_METADATA_NAMESPACE
+//@ func handleBreakingFileSamePhpMetadataNamespace(responseWriter, request, file, previousFile) (err)
+//@   property C03 C04
+//@   modifies ghost.annCount, ghost.annLocs, ghost.annFiles
+//@   ensures no-error: err == nil
+//@   ensures changed-reported {C03}: previousFile.PhpMetadataNamespace() != file.PhpMetadataNamespace() ==> ghost.annCount == old(ghost.annCount) + 1 && file.PhpMetadataNamespaceLocation() in ghost.annLocs && file.Path() in ghost.annFiles
+//@   ensures same-silent {C04}: previousFile.PhpMetadataNamespace() == file.PhpMetadataNamespace() ==> ghost.annCount == old(ghost.annCount)
+//
+// FILE_SAME_PHP_NAMESPACE
+//@ func handleBreakingFileSamePhpNamespace(responseWriter, request, file, previousFile) (err)
+//@   property C03 C04
+//@   modifies ghost.annCount, ghost.annLocs, ghost.annFiles
+//@   ensures no-error: err == nil
+//@   ensures changed-reported {C03}: previousFile.PhpNamespace() != file.PhpNamespace() ==> ghost.annCount == old(ghost.annCount) + 1 && file.PhpNamespaceLocation() in ghost.annLocs && file.Path() in ghost.annFiles
+//@   ensures same-silent {C04}: previousFile.PhpNamespace() == file.PhpNamespace() ==> ghost.annCount == old(ghost.annCount)
+//
+// FILE_SAME_PY_GENERIC_SERVICES
+//@ func handleBreakingFileSamePyGenericServices(responseWriter, request, file, previousFile) (err)
+//@   property C03 C04
+//@   modifies ghost.annCount, ghost.annLocs, ghost.annFiles
+//@   ensures no-error: err == nil
+//@   ensures changed-reported {C03}: previousFile.PyGenericServices() != file.PyGenericServices() ==> ghost.annCount == old(ghost.annCount) + 1 && file.PyGenericServicesLocation() in ghost.annLocs && file.Path() in ghost.annFiles
+//@   ensures same-silent {C04}: previousFile.PyGenericServices() == file.PyGenericServices() ==> ghost.annCount == old(ghost.annCount)
+//
+// FILE_SAME_RUBY_PACKAGE
+//@ func handleBreakingFileSameRubyPackage(responseWriter, request, file, previousFile) (err)
+//@   property C03 C04
+//@   modifies ghost.annCount, ghost.annLocs, ghost.annFiles
+//@   ensures no-error: err == nil
+//@   ensures changed-reported {C03}: previousFile.RubyPackage() != file.RubyPackage() ==> ghost.annCount == old(ghost.annCount) + 1 && file.RubyPackageLocation() in ghost.annLocs && file.Path() in ghost.annFiles
+//@   ensures same-silent {C04}: previousFile.RubyPackage() == file.RubyPackage() ==> ghost.annCount == old(ghost.annCount)
+//
+// FILE_SAME_SWIFT_PREFIX
+//@ func handleBreakingFileSameSwiftPrefix(responseWriter, request, file, previousFile) (err)
+//@   property C03 C04
+//@   modifies ghost.annCount, ghost.annLocs, ghost.annFiles
+//@   ensures no-error: err == nil
+//@   ensures changed-reported {C03}: previousFile.SwiftPrefix() != file.SwiftPrefix() ==> ghost.annCount == old(ghost.annCount) + 1 && file.SwiftPrefixLocation() in ghost.annLocs && file.Path() in ghost.annFiles
+//@   ensures same-silent {C04}: previousFile.SwiftPrefix() == file.SwiftPrefix() ==> ghost.annCount == old(ghost.annCount)
+//
+// ---------- field type handlers ----------
+//
+// message text only
+//@ pure func fieldDescriptorTypePrettyString(descriptor) (r)
+//@   property C03 C04
+//
+// exactly one annotation, at the field's type name
+//@ func addEnumGroupMessageFieldChangedTypeName(responseWriter, previousField, field)
+//@   property C03 C04
+//@   modifies ghost.annCount, ghost.annLocs, ghost.annFiles
+//@   ensures one {C03}: ghost.annCount == old(ghost.annCount) + 1
+//@   ensures at-type-name {C03}: ghost.annLocs == add(old(ghost.annLocs), field.TypeNameLocation())
+//@   ensures file {C03}: ghost.annFiles == add(old(ghost.annFiles), field.File().Path())
+//
+// exactly one annotation, at the type name (message, group, enum) or the scalar type keyword of the CURRENT field
+//@ func addFieldChangedType(responseWriter, previousField, previousDescriptor, field, descriptor, extraMessages)
+//@   property C03 C04
+//@   modifies ghost.annCount, ghost.annLocs, ghost.annFiles
+//@   ensures one {C03}: ghost.annCount == old(ghost.annCount) + 1
+//@   ensures at-type {C03}: ghost.annLocs == add(old(ghost.annLocs), ite(a_namedKind(descriptor.Kind()), field.TypeNameLocation(), field.TypeLocation()))
+//@   ensures file {C03}: ghost.annFiles == add(old(ghost.annFiles), field.File().Path())
+//@   reveal a_namedKind
+//
+// FIELD_SAME_TYPE
+//@ func handleBreakingFieldSameType(responseWriter, request, field, previousField) (err)
+//@   property C03 C04
+//@   modifies ghost.annCount, ghost.annLocs, ghost.annFiles
+//@   ensures error-iff: err == nil <==> a_descOK(previousField) && a_descOK(field)
+//@   ensures changed-reported {C03}: err == nil && a_sameTypeBroken(field, previousField) ==> ghost.annCount == old(ghost.annCount) + 1 && ghost.annLocs == add(old(ghost.annLocs), a_typeLoc(field)) && ghost.annFiles == add(old(ghost.annFiles), field.File().Path())
+//@   ensures same-silent {C04}: err != nil || !a_sameTypeBroken(field, previousField) ==> ghost.annCount == old(ghost.annCount) && ghost.annLocs == old(ghost.annLocs) && ghost.annFiles == old(ghost.annFiles)
+//@   reveal a_descOK, a_kindOf, a_namedKind, a_typeLoc, a_sameTypeBroken
+//@   use a_type-kind-link
+//
+// ---------- wire compatibility ----------
+//
+// lookup in the (trusted) full-name index of the given files
+//@ func getEnumByFullName(files, enumFullName) (r, err)
+//@   property C03 C04
+//@   ensures error-iff: err == nil <==> second(bufprotosource.FullNameToEnum(files)) == nil && enumFullName in first(bufprotosource.FullNameToEnum(files))
+//@   ensures found: err == nil ==> r == first(bufprotosource.FullNameToEnum(files))[enumFullName]
+//
+// The enum clause of the two wire rules: the field is reported (at its type name) exactly when the two enums have
+// different short names or the previous enum is not a subset of the current one.
+//@ func checkEnumWireCompatibleForField(responseWriter, request, previousField, field) (err)
+//@   property C03 C04
+//@   modifies ghost.annCount, ghost.annLocs, ghost.annFiles
+//@   ensures lookups: err == nil ==> a_enumLookupOK(request.AgainstProtosourceFiles(), previousField.TypeName()) && a_enumLookupOK(request.ProtosourceFiles(), field.TypeName())
+//@   ensures incompatible-reported {C03}: err == nil && a_fieldEnumIncompatible(request, field, previousField) ==> ghost.annCount == old(ghost.annCount) + 1 && ghost.annLocs == add(old(ghost.annLocs), field.TypeNameLocation()) && ghost.annFiles == add(old(ghost.annFiles), field.File().Path())
+//@   ensures compatible-silent {C04}: err != nil || !a_fieldEnumIncompatible(request, field, previousField) ==> ghost.annCount == old(ghost.annCount) && ghost.annLocs == old(ghost.annLocs) && ghost.annFiles == old(ghost.annFiles)
+//@   reveal a_enumLookupOK, a_enumOf, a_enumIncompatible, a_fieldEnumIncompatible
+//
+// FIELD_WIRE_COMPATIBLE_TYPE. The precondition states that the kind table agrees with the documented classes; it is
+// established for the table literal by the obligation table[a_wireGroups.*] below (package-level variables are
+// immutable: engine assumption).
+//@ func handleBreakingFieldWireCompatibleType(responseWriter, request, field, previousField) (err)
+//@   property C03 C04
+//@   modifies ghost.annCount, ghost.annLocs, ghost.annFiles
+//@   requires table-matches-doc: a_wireTableOK(fieldKindToWireCompatibilityGroup)
+//@   ensures descriptors: err == nil ==> a_descOK(previousField) && a_descOK(field) && a_validKind(a_kindOf(previousField)) && a_validKind(a_kindOf(field))
+//@   ensures known-kinds-no-error: a_descOK(previousField) && a_descOK(field) && a_validKind(a_kindOf(previousField)) && a_validKind(a_kindOf(field)) && a_wireKindBroken(a_kindOf(field), a_kindOf(previousField)) ==> err == nil
+//@   ensures changed-reported {C03}: err == nil && a_wireBroken(request, field, previousField) ==> ghost.annCount == old(ghost.annCount) + 1 && ghost.annLocs == add(old(ghost.annLocs), a_typeLoc(field)) && ghost.annFiles == add(old(ghost.annFiles), field.File().Path())
+//@   ensures compatible-silent {C04}: err != nil || !a_wireBroken(request, field, previousField) ==> ghost.annCount == old(ghost.annCount) && ghost.annLocs == old(ghost.annLocs) && ghost.annFiles == old(ghost.annFiles)
+//@   reveal a_descOK, a_kindOf, a_namedKind, a_typeLoc, a_validKind, a_docWireGroup, a_wireTableOK, a_wireKindBroken, a_wireNameBroken, a_wireBroken
+//@   use a_type-kind-link
+//
+// FIELD_WIRE_JSON_COMPATIBLE_TYPE
+//@ func handleBreakingFieldWireJSONCompatibleType(responseWriter, request, field, previousField) (err)
+//@   property C03 C04
+//@   modifies ghost.annCount, ghost.annLocs, ghost.annFiles
+//@   requires table-matches-doc: a_wireJSONTableOK(fieldKindToWireJSONCompatibilityGroup)
+//@   ensures descriptors: err == nil ==> a_descOK(previousField) && a_descOK(field) && a_validKind(a_kindOf(previousField)) && a_validKind(a_kindOf(field))
+//@   ensures known-kinds-no-error: a_descOK(previousField) && a_descOK(field) && a_validKind(a_kindOf(previousField)) && a_validKind(a_kindOf(field)) && a_docWireJSONGroup(a_kindOf(previousField)) != a_docWireJSONGroup(a_kindOf(field)) ==> err == nil
+//@   ensures changed-reported {C03}: err == nil && a_wireJSONBroken(request, field, previousField) ==> ghost.annCount == old(ghost.annCount) + 1 && ghost.annLocs == add(old(ghost.annLocs), a_typeLoc(field)) && ghost.annFiles == add(old(ghost.annFiles), field.File().Path())
+//@   ensures compatible-silent {C04}: err != nil || !a_wireJSONBroken(request, field, previousField) ==> ghost.annCount == old(ghost.annCount) && ghost.annLocs == old(ghost.annLocs) && ghost.annFiles == old(ghost.annFiles)
+//@   reveal a_descOK, a_kindOf, a_namedKind, a_typeLoc, a_validKind, a_docWireJSONGroup, a_wireJSONTableOK, a_wireNameBroken, a_wireJSONBroken
+//
+// The two kind tables agree with the documented compatibility classes (a_docWireGroup / a_docWireJSONGroup in
+// /verif/specs/C03_pairs.spec): the keys are the 18 kinds, and two kinds share a number exactly when the documentation
+// puts them into one class. These obligations establish the preconditions `table-matches-doc` of the two handlers.
+// (The clause bodies are a_wireTableOK / a_wireJSONTableOK with a_validKind, a_docWireGroup, a_docWireJSONGroup
+// unfolded: spec functions cannot be revealed inside table blocks. Generated mechanically from the .spec file.)
+//@ table a_wireGroups {C03 C04} of fieldKindToWireCompatibilityGroup
+//@   ensures keys: forall k protoreflect.Kind :: (k in fieldKindToWireCompatibilityGroup) <==> (k == protoreflect.BoolKind || k == protoreflect.EnumKind || k == protoreflect.Int32Kind || k == protoreflect.Sint32Kind || k == protoreflect.Uint32Kind || k == protoreflect.Int64Kind || k == protoreflect.Sint64Kind || k == protoreflect.Uint64Kind || k == protoreflect.Sfixed32Kind || k == protoreflect.Fixed32Kind || k == protoreflect.FloatKind || k == protoreflect.Sfixed64Kind || k == protoreflect.Fixed64Kind || k == protoreflect.DoubleKind || k == protoreflect.StringKind || k == protoreflect.BytesKind || k == protoreflect.MessageKind || k == protoreflect.GroupKind)
+//@   ensures partition: forall k1 protoreflect.Kind, k2 protoreflect.Kind :: (k1 == protoreflect.BoolKind || k1 == protoreflect.EnumKind || k1 == protoreflect.Int32Kind || k1 == protoreflect.Sint32Kind || k1 == protoreflect.Uint32Kind || k1 == protoreflect.Int64Kind || k1 == protoreflect.Sint64Kind || k1 == protoreflect.Uint64Kind || k1 == protoreflect.Sfixed32Kind || k1 == protoreflect.Fixed32Kind || k1 == protoreflect.FloatKind || k1 == protoreflect.Sfixed64Kind || k1 == protoreflect.Fixed64Kind || k1 == protoreflect.DoubleKind || k1 == protoreflect.StringKind || k1 == protoreflect.BytesKind || k1 == protoreflect.MessageKind || k1 == protoreflect.GroupKind) && (k2 == protoreflect.BoolKind || k2 == protoreflect.EnumKind || k2 == protoreflect.Int32Kind || k2 == protoreflect.Sint32Kind || k2 == protoreflect.Uint32Kind || k2 == protoreflect.Int64Kind || k2 == protoreflect.Sint64Kind || k2 == protoreflect.Uint64Kind || k2 == protoreflect.Sfixed32Kind || k2 == protoreflect.Fixed32Kind || k2 == protoreflect.FloatKind || k2 == protoreflect.Sfixed64Kind || k2 == protoreflect.Fixed64Kind || k2 == protoreflect.DoubleKind || k2 == protoreflect.StringKind || k2 == protoreflect.BytesKind || k2 == protoreflect.MessageKind || k2 == protoreflect.GroupKind) ==> ((fieldKindToWireCompatibilityGroup[k1] == fieldKindToWireCompatibilityGroup[k2]) <==> ((ite(k1 == protoreflect.Int32Kind || k1 == protoreflect.Uint32Kind || k1 == protoreflect.Int64Kind || k1 == protoreflect.Uint64Kind || k1 == protoreflect.BoolKind, 10, ite(k1 == protoreflect.Sint32Kind || k1 == protoreflect.Sint64Kind, 20, ite(k1 == protoreflect.StringKind, 30, ite(k1 == protoreflect.BytesKind, 31, ite(k1 == protoreflect.Fixed32Kind || k1 == protoreflect.Sfixed32Kind, 40, ite(k1 == protoreflect.Fixed64Kind || k1 == protoreflect.Sfixed64Kind, 50, ite(k1 == protoreflect.DoubleKind, 60, ite(k1 == protoreflect.FloatKind, 61, ite(k1 == protoreflect.GroupKind, 70, ite(k1 == protoreflect.MessageKind, 71, ite(k1 == protoreflect.EnumKind, 72, 0)))))))))))) == (ite(k2 == protoreflect.Int32Kind || k2 == protoreflect.Uint32Kind || k2 == protoreflect.Int64Kind || k2 == protoreflect.Uint64Kind || k2 == protoreflect.BoolKind, 10, ite(k2 == protoreflect.Sint32Kind || k2 == protoreflect.Sint64Kind, 20, ite(k2 == protoreflect.StringKind, 30, ite(k2 == protoreflect.BytesKind, 31, ite(k2 == protoreflect.Fixed32Kind || k2 == protoreflect.Sfixed32Kind, 40, ite(k2 == protoreflect.Fixed64Kind || k2 == protoreflect.Sfixed64Kind, 50, ite(k2 == protoreflect.DoubleKind, 60, ite(k2 == protoreflect.FloatKind, 61, ite(k2 == protoreflect.GroupKind, 70, ite(k2 == protoreflect.MessageKind, 71, ite(k2 == protoreflect.EnumKind, 72, 0))))))))))))))
+//@ table a_wireJSONGroups {C03 C04} of fieldKindToWireJSONCompatibilityGroup
+//@   ensures keys: forall k protoreflect.Kind :: (k in fieldKindToWireJSONCompatibilityGroup) <==> (k == protoreflect.BoolKind || k == protoreflect.EnumKind || k == protoreflect.Int32Kind || k == protoreflect.Sint32Kind || k == protoreflect.Uint32Kind || k == protoreflect.Int64Kind || k == protoreflect.Sint64Kind || k == protoreflect.Uint64Kind || k == protoreflect.Sfixed32Kind || k == protoreflect.Fixed32Kind || k == protoreflect.FloatKind || k == protoreflect.Sfixed64Kind || k == protoreflect.Fixed64Kind || k == protoreflect.DoubleKind || k == protoreflect.StringKind || k == protoreflect.BytesKind || k == protoreflect.MessageKind || k == protoreflect.GroupKind)
+//@   ensures partition: forall k1 protoreflect.Kind, k2 protoreflect.Kind :: (k1 == protoreflect.BoolKind || k1 == protoreflect.EnumKind || k1 == protoreflect.Int32Kind || k1 == protoreflect.Sint32Kind || k1 == protoreflect.Uint32Kind || k1 == protoreflect.Int64Kind || k1 == protoreflect.Sint64Kind || k1 == protoreflect.Uint64Kind || k1 == protoreflect.Sfixed32Kind || k1 == protoreflect.Fixed32Kind || k1 == protoreflect.FloatKind || k1 == protoreflect.Sfixed64Kind || k1 == protoreflect.Fixed64Kind || k1 == protoreflect.DoubleKind || k1 == protoreflect.StringKind || k1 == protoreflect.BytesKind || k1 == protoreflect.MessageKind || k1 == protoreflect.GroupKind) && (k2 == protoreflect.BoolKind || k2 == protoreflect.EnumKind || k2 == protoreflect.Int32Kind || k2 == protoreflect.Sint32Kind || k2 == protoreflect.Uint32Kind || k2 == protoreflect.Int64Kind || k2 == protoreflect.Sint64Kind || k2 == protoreflect.Uint64Kind || k2 == protoreflect.Sfixed32Kind || k2 == protoreflect.Fixed32Kind || k2 == protoreflect.FloatKind || k2 == protoreflect.Sfixed64Kind || k2 == protoreflect.Fixed64Kind || k2 == protoreflect.DoubleKind || k2 == protoreflect.StringKind || k2 == protoreflect.BytesKind || k2 == protoreflect.MessageKind || k2 == protoreflect.GroupKind) ==> ((fieldKindToWireJSONCompatibilityGroup[k1] == fieldKindToWireJSONCompatibilityGroup[k2]) <==> ((ite(k1 == protoreflect.Int32Kind || k1 == protoreflect.Uint32Kind, 10, ite(k1 == protoreflect.Int64Kind || k1 == protoreflect.Uint64Kind, 11, ite(k1 == protoreflect.BoolKind, 12, ite(k1 == protoreflect.Sint32Kind, 20, ite(k1 == protoreflect.Sint64Kind, 21, ite(k1 == protoreflect.StringKind, 30, ite(k1 == protoreflect.BytesKind, 31, ite(k1 == protoreflect.Fixed32Kind || k1 == protoreflect.Sfixed32Kind, 40, ite(k1 == protoreflect.Fixed64Kind || k1 == protoreflect.Sfixed64Kind, 50, ite(k1 == protoreflect.DoubleKind, 60, ite(k1 == protoreflect.FloatKind, 61, ite(k1 == protoreflect.GroupKind, 70, ite(k1 == protoreflect.MessageKind, 71, ite(k1 == protoreflect.EnumKind, 72, 0))))))))))))))) == (ite(k2 == protoreflect.Int32Kind || k2 == protoreflect.Uint32Kind, 10, ite(k2 == protoreflect.Int64Kind || k2 == protoreflect.Uint64Kind, 11, ite(k2 == protoreflect.BoolKind, 12, ite(k2 == protoreflect.Sint32Kind, 20, ite(k2 == protoreflect.Sint64Kind, 21, ite(k2 == protoreflect.StringKind, 30, ite(k2 == protoreflect.BytesKind, 31, ite(k2 == protoreflect.Fixed32Kind || k2 == protoreflect.Sfixed32Kind, 40, ite(k2 == protoreflect.Fixed64Kind || k2 == protoreflect.Sfixed64Kind, 50, ite(k2 == protoreflect.DoubleKind, 60, ite(k2 == protoreflect.FloatKind, 61, ite(k2 == protoreflect.GroupKind, 70, ite(k2 == protoreflect.MessageKind, 71, ite(k2 == protoreflect.EnumKind, 72, 0)))))))))))))))))
+//
+// ---------- ENUM_SAME_TYPE ----------
+//
+//@ func handleBreakingEnumSameType(responseWriter, request, enum, previousEnum) (err)
+//@   property C03 C04
+//@   modifies ghost.annCount, ghost.annLocs, ghost.annFiles
+//@   ensures error-iff: err == nil <==> second(previousEnum.AsDescriptor()) == nil && second(enum.AsDescriptor()) == nil
+//@   ensures changed-reported {C03}: err == nil && a_enumTypeChanged(enum, previousEnum) ==> ghost.annCount == old(ghost.annCount) + 1 && ghost.annLocs == add(old(ghost.annLocs), a_loc2(enum.Features().EnumTypeLocation(), enum.Location())) && ghost.annFiles == add(old(ghost.annFiles), enum.File().Path())
+//@   ensures same-silent {C04}: err != nil || !a_enumTypeChanged(enum, previousEnum) ==> ghost.annCount == old(ghost.annCount) && ghost.annLocs == old(ghost.annLocs) && ghost.annFiles == old(ghost.annFiles)
+//@   reveal a_enumTypeChanged, a_loc2
+//
+// ---------- FIELD_SAME_CARDINALITY ----------
+//
+//@ pure func getCardinality(field) (r)
+//@   property C03 C04
+//@   ensures classes: r == ite(field.IsList(), cardinalityRepeated, ite(field.IsMap(), cardinalityMap, ite(field.Cardinality() == protoreflect.Required, cardinalityRequired, ite(field.HasPresence(), cardinalityOptionalExplicitPresence, cardinalityOptionalImplicitPresence))))
+//
+//@ func handleBreakingFieldSameCardinality(responseWriter, request, field, previousField) (err)
+//@   property C03 C04
+//@   modifies ghost.annCount, ghost.annLocs, ghost.annFiles
+//@   ensures error-iff: err == nil <==> a_descOK(previousField) && a_descOK(field)
+//@   ensures changed-reported {C03}: err == nil && a_cardinalityChanged(field, previousField) ==> ghost.annCount == old(ghost.annCount) + 1 && ghost.annLocs == add(old(ghost.annLocs), field.Location()) && ghost.annFiles == add(old(ghost.annFiles), field.File().Path())
+//@   ensures same-silent {C04}: err != nil || !a_cardinalityChanged(field, previousField) ==> ghost.annCount == old(ghost.annCount) && ghost.annLocs == old(ghost.annLocs) && ghost.annFiles == old(ghost.annFiles)
+//@   reveal a_descOK, a_cardinality, a_cardinalityChanged
+//
+// ---------- FIELD_SAME_JSTYPE ----------
+//
+//@ pure func is64bitInteger(fieldType) (r)
+//@   property C03 C04
+//@   ensures sixty-four: r == a_is64(fieldType)
+//@   reveal a_is64
+//
+//@ func handleBreakingFieldSameJSType(responseWriter, request, field, previousField) (err)
+//@   property C03 C04
+//@   modifies ghost.annCount, ghost.annLocs, ghost.annFiles
+//@   ensures no-error: err == nil
+//@   ensures changed-reported {C03}: a_jsTypeChanged(field, previousField) ==> ghost.annCount == old(ghost.annCount) + 1 && ghost.annLocs == add(old(ghost.annLocs), a_loc2(field.JSTypeLocation(), field.Location())) && ghost.annFiles == add(old(ghost.annFiles), field.File().Path())
+//@   ensures same-silent {C04}: !a_jsTypeChanged(field, previousField) ==> ghost.annCount == old(ghost.annCount) && ghost.annLocs == old(ghost.annLocs) && ghost.annFiles == old(ghost.annFiles)
+//@   reveal a_jsTypeChanged, a_loc2
+//
+// ---------- FIELD_SAME_ONEOF ----------
+//
+//@ func handleBreakingFieldSameOneof(responseWriter, request, field, previousField) (err)
+//@   property C03 C04
+//@   modifies ghost.annCount, ghost.annLocs, ghost.annFiles
+//@   ensures extension-no-error: previousField.Extendee() != "" ==> err == nil
+//@   ensures changed-reported {C03}: err == nil && a_oneofChanged(field, previousField) ==> ghost.annCount == old(ghost.annCount) + 1 && ghost.annLocs == add(old(ghost.annLocs), field.Location()) && ghost.annFiles == add(old(ghost.annFiles), field.File().Path())
+//@   ensures same-silent {C04}: err != nil || !a_oneofChanged(field, previousField) ==> ghost.annCount == old(ghost.annCount) && ghost.annLocs == old(ghost.annLocs) && ghost.annFiles == old(ghost.annFiles)
+//@   reveal a_inRealOneof, a_oneofChanged
+//
+// ---------- MESSAGE_NO_REMOVE_STANDARD_DESCRIPTOR_ACCESSOR ----------
+//
+//@ func handleBreakingMessageNoRemoveStandardDescriptorAccessor(responseWriter, request, message, previousMessage) (err)
+//@   property C03 C04
+//@   modifies ghost.annCount, ghost.annLocs, ghost.annFiles
+//@   ensures no-error: err == nil
+//@   ensures removed-reported {C03}: a_accessorRemoved(message, previousMessage) ==> ghost.annCount == old(ghost.annCount) + 1 && ghost.annLocs == add(old(ghost.annLocs), message.NoStandardDescriptorAccessorLocation()) && ghost.annFiles == add(old(ghost.annFiles), message.File().Path())
+//@   ensures kept-silent {C04}: !a_accessorRemoved(message, previousMessage) ==> ghost.annCount == old(ghost.annCount) && ghost.annLocs == old(ghost.annLocs) && ghost.annFiles == old(ghost.annFiles)
+//@   reveal a_accessorRemoved
+//
+// ---------- FIELD_SAME_DEFAULT ----------
+//
+//@ pure func canHaveDefault(descriptor) (r)
+//@   property C03 C04
+//@   ensures singular-non-message: r == a_canHaveDefault(descriptor)
+//@   reveal a_canHaveDefault
+// value extraction and comparison over reflect / math/big: outside the fragment (trusted, see C03_pairs.spec)
+//@ trusted pure func getDefault(descriptor) (r)
+//@ trusted pure func (f fieldDefault) isZero() (r)
+//@ trusted pure func defaultsEqual(previous, current) (r)
+//
+//@ func handleBreakingFieldSameDefault(responseWriter, request, field, previousField) (err)
+//@   property C03 C04
+//@   modifies ghost.annCount, ghost.annLocs, ghost.annFiles
+//@   ensures error-iff: err == nil <==> a_descOK(previousField) && a_descOK(field)
+//@   ensures changed-reported {C03}: err == nil && a_defaultChanged(field, previousField) ==> ghost.annCount == old(ghost.annCount) + 1 && ghost.annLocs == add(old(ghost.annLocs), a_loc2(field.DefaultLocation(), field.Location())) && ghost.annFiles == add(old(ghost.annFiles), field.File().Path())
+//@   ensures same-silent {C04}: err != nil || !a_defaultChanged(field, previousField) ==> ghost.annCount == old(ghost.annCount) && ghost.annLocs == old(ghost.annLocs) && ghost.annFiles == old(ghost.annFiles)
+//@   reveal a_descOK, a_canHaveDefault, a_defaultChanged, a_loc2
+//
+// ---------- features: MESSAGE_SAME_JSON_FORMAT, ENUM_SAME_JSON_FORMAT, FIELD_SAME_UTF8_VALIDATION ----------
+//
+// lookup of a standard feature's field descriptor in google.protobuf.FeatureSet (protobuf runtime reflection:
+// outside the fragment; a deterministic function of its arguments)
+//@ trusted pure func findFeatureField(name, expectedKind) (r, err)
+//
+//@ func handleBreakingMessageSameJSONFormat(responseWriter, request, message, previousMessage) (err)
+//@   property C03 C04
+//@   modifies ghost.annCount, ghost.annLocs, ghost.annFiles
+//@   ensures descriptors: err == nil ==> second(previousMessage.AsDescriptor()) == nil && second(message.AsDescriptor()) == nil
+//@   ensures downgrade-reported {C03}: err == nil && a_jsonFormatDowngraded(first(message.AsDescriptor()), first(previousMessage.AsDescriptor())) ==> ghost.annCount == old(ghost.annCount) + 1 && ghost.annLocs == add(old(ghost.annLocs), a_loc2(message.Features().JSONFormatLocation(), message.Location())) && ghost.annFiles == add(old(ghost.annFiles), message.File().Path())
+//@   ensures otherwise-silent {C04}: err != nil || !a_jsonFormatDowngraded(first(message.AsDescriptor()), first(previousMessage.AsDescriptor())) ==> ghost.annCount == old(ghost.annCount) && ghost.annLocs == old(ghost.annLocs) && ghost.annFiles == old(ghost.annFiles)
+//@   reveal a_jsonFormatOf, a_jsonFormatDowngraded, a_loc2
+//
+//@ func handleBreakingEnumSameJSONFormat(responseWriter, request, enum, previousEnum) (err)
+//@   property C03 C04
+//@   modifies ghost.annCount, ghost.annLocs, ghost.annFiles
+//@   ensures descriptors: err == nil ==> second(previousEnum.AsDescriptor()) == nil && second(enum.AsDescriptor()) == nil
+//@   ensures downgrade-reported {C03}: err == nil && a_jsonFormatDowngraded(first(enum.AsDescriptor()), first(previousEnum.AsDescriptor())) ==> ghost.annCount == old(ghost.annCount) + 1 && ghost.annLocs == add(old(ghost.annLocs), a_loc2(enum.Features().JSONFormatLocation(), enum.Location())) && ghost.annFiles == add(old(ghost.annFiles), enum.File().Path())
+//@   ensures otherwise-silent {C04}: err != nil || !a_jsonFormatDowngraded(first(enum.AsDescriptor()), first(previousEnum.AsDescriptor())) ==> ghost.annCount == old(ghost.annCount) && ghost.annLocs == old(ghost.annLocs) && ghost.annFiles == old(ghost.annFiles)
+//@   reveal a_jsonFormatOf, a_jsonFormatDowngraded, a_loc2
+//
+//@ func handleBreakingFieldSameUTF8Validation(responseWriter, request, field, previousField) (err)
+//@   property C03 C04
+//@   modifies ghost.annCount, ghost.annLocs, ghost.annFiles
+//@   ensures descriptors: err == nil ==> a_descOK(previousField) && a_descOK(field)
+//@   ensures changed-reported {C03}: err == nil && a_utf8ValidationChanged(field, previousField) ==> ghost.annCount == old(ghost.annCount) + 1 && ghost.annLocs == add(old(ghost.annLocs), a_loc2(field.Features().UTF8ValidationLocation(), field.Location())) && ghost.annFiles == add(old(ghost.annFiles), field.File().Path())
+//@   ensures same-silent {C04}: err != nil || !a_utf8ValidationChanged(field, previousField) ==> ghost.annCount == old(ghost.annCount) && ghost.annLocs == old(ghost.annLocs) && ghost.annFiles == old(ghost.annFiles)
+//@   reveal a_descOK, a_kindOf, a_utf8ValidationOf, a_utf8ValidationChanged, a_loc2
+//
+// ---------- MESSAGE_SAME_REQUIRED_FIELDS ----------
+//
+// A deleted required field is reported at the message (the field no longer exists), an added one at the new field;
+// with the same set of required field numbers nothing is reported; nothing else is ever annotated.
+//@ func handleBreakingMessageSameRequiredFields(responseWriter, request, message, previousMessage) (err)
+//@   property C03 C04
+//@   modifies ghost.annCount, ghost.annLocs, ghost.annFiles
+//@   ensures error-iff: err == nil <==> second(bufprotosource.NumberToMessageFieldForLabel(previousMessage, descriptorpb.FieldDescriptorProto_LABEL_REQUIRED)) == nil && second(bufprotosource.NumberToMessageFieldForLabel(message, descriptorpb.FieldDescriptorProto_LABEL_REQUIRED)) == nil
+//@   ensures deleted-reported {C03}: err == nil && a_reqDeleted(message, previousMessage) ==> ghost.annCount > old(ghost.annCount) && message.Location() in ghost.annLocs && message.File().Path() in ghost.annFiles
+//@   ensures added-reported {C03}: err == nil ==> (forall n int :: a_reqAdded(message, previousMessage, n) ==> ghost.annCount > old(ghost.annCount) && a_reqFields(message)[n].Location() in ghost.annLocs && a_reqFields(message)[n].File().Path() in ghost.annFiles)
+//@   ensures same-silent {C04}: !(ghost.annCount == old(ghost.annCount) && ghost.annLocs == old(ghost.annLocs) && ghost.annFiles == old(ghost.annFiles)) ==> err == nil && (a_reqDeleted(message, previousMessage) || (exists n int :: a_reqAdded(message, previousMessage, n)))
+//@   ensures only-those {C04}: forall l ref :: l in ghost.annLocs && !(l in old(ghost.annLocs)) ==> (l == message.Location() && a_reqDeleted(message, previousMessage)) || (exists n int :: a_reqAdded(message, previousMessage, n) && l == a_reqFields(message)[n].Location())
+//@   reveal a_reqFields, a_reqDeleted, a_reqAdded
+//@   loop 0 invariant previousNumberToRequiredField == a_reqFields(previousMessage) && numberToRequiredField == a_reqFields(message)
+//@   loop 0 invariant ghost.annCount >= old(ghost.annCount)
+//@   loop 0 invariant forall n int :: n in $visited && !(n in numberToRequiredField) ==> ghost.annCount > old(ghost.annCount) && message.Location() in ghost.annLocs && message.File().Path() in ghost.annFiles
+//@   loop 0 invariant !(ghost.annCount == old(ghost.annCount) && ghost.annLocs == old(ghost.annLocs) && ghost.annFiles == old(ghost.annFiles)) ==> (exists n int :: n in $visited && n in previousNumberToRequiredField && !(n in numberToRequiredField))
+//@   loop 0 invariant forall l ref :: l in ghost.annLocs && !(l in old(ghost.annLocs)) ==> l == message.Location() && (exists n int :: n in previousNumberToRequiredField && !(n in numberToRequiredField))
+//@   loop 1 invariant previousNumberToRequiredField == a_reqFields(previousMessage) && numberToRequiredField == a_reqFields(message)
+//@   loop 1 invariant ghost.annCount >= old(ghost.annCount)
+//@   loop 1 invariant (exists n int :: n in previousNumberToRequiredField && !(n in numberToRequiredField)) ==> ghost.annCount > old(ghost.annCount) && message.Location() in ghost.annLocs && message.File().Path() in ghost.annFiles
+//@   loop 1 invariant forall n int :: n in $visited && !(n in previousNumberToRequiredField) ==> ghost.annCount > old(ghost.annCount) && numberToRequiredField[n].Location() in ghost.annLocs && numberToRequiredField[n].File().Path() in ghost.annFiles
+//@   loop 1 invariant !(ghost.annCount == old(ghost.annCount) && ghost.annLocs == old(ghost.annLocs) && ghost.annFiles == old(ghost.annFiles)) ==> (exists n int :: n in previousNumberToRequiredField && !(n in numberToRequiredField)) || (exists n int :: n in $visited && n in numberToRequiredField && !(n in previousNumberToRequiredField))
+//@   loop 1 invariant forall l ref :: l in ghost.annLocs && !(l in old(ghost.annLocs)) ==> (l == message.Location() && (exists n int :: n in previousNumberToRequiredField && !(n in numberToRequiredField))) || (exists n int :: n in numberToRequiredField && !(n in previousNumberToRequiredField) && l == numberToRequiredField[n].Location())
+//
+// ---------- FIELD_SAME_JAVA_UTF8_VALIDATION ----------
+//
+//@ trusted pure interface protoreflect.FileDescriptor
+//@ pure func fieldJavaUTF8Validation(field) (r, err)
+//@   property C03 C04
+// where a (pb.java)/(pb.cpp) custom feature is written on a field, if at all (protobuf runtime reflection over the
+// extension descriptors: outside the fragment; deterministic)
+//@ trusted pure func fieldJavaUTF8ValidationLocation(field) (r)
+//@ trusted pure func fieldCppStringTypeLocation(field) (r)
+//
+//@ func handleBreakingFieldSameJavaUTF8Validation(responseWriter, request, field, previousField) (err)
+//@   property C03 C04
+//@   modifies ghost.annCount, ghost.annLocs, ghost.annFiles
+//@   ensures descriptors: err == nil ==> a_descOK(previousField) && a_descOK(field)
+//@   ensures changed-reported {C03}: err == nil && a_javaUTF8Changed(field, previousField) ==> ghost.annCount == old(ghost.annCount) + 1 && ghost.annLocs == add(old(ghost.annLocs), a_loc3(field.File().JavaStringCheckUtf8Location(), fieldJavaUTF8ValidationLocation(field), field.Location())) && ghost.annFiles == add(old(ghost.annFiles), field.File().Path())
+//@   ensures same-silent {C04}: err != nil || !a_javaUTF8Changed(field, previousField) ==> ghost.annCount == old(ghost.annCount) && ghost.annLocs == old(ghost.annLocs) && ghost.annFiles == old(ghost.annFiles)
+//@   reveal a_descOK, a_kindOf, a_javaUTF8Changed, a_loc3
+//
+// ---------- FIELD_SAME_CPP_STRING_TYPE ----------
+//
+//@ pure func fieldCppStringType(field, descriptor) (r, piece, err)
+//@   property C03 C04
+//
+//@ func handleBreakingFieldSameCppStringType(responseWriter, request, field, previousField) (err)
+//@   property C03 C04
+//@   modifies ghost.annCount, ghost.annLocs, ghost.annFiles
+//@   ensures descriptors: err == nil ==> a_descOK(previousField) && a_descOK(field)
+//@   ensures changed-reported {C03}: err == nil && a_cppStringTypeChanged(field, previousField) ==> ghost.annCount == old(ghost.annCount) + 1 && ghost.annLocs == add(old(ghost.annLocs), a_loc3(field.CTypeLocation(), fieldCppStringTypeLocation(field), field.Location())) && ghost.annFiles == add(old(ghost.annFiles), field.File().Path())
+//@   ensures same-silent {C04}: err != nil || !a_cppStringTypeChanged(field, previousField) ==> ghost.annCount == old(ghost.annCount) && ghost.annLocs == old(ghost.annLocs) && ghost.annFiles == old(ghost.annFiles)
+//@   reveal a_descOK, a_kindOf, a_stringish, a_cppStringTypeChanged, a_loc3
+//
+// ---------- FIELD_WIRE_COMPATIBLE_CARDINALITY / FIELD_WIRE_JSON_COMPATIBLE_CARDINALITY ----------
+//
+// The two cardinality tables agree with the documented classes (unfolded a_cardWireTableOK / a_cardWireJSONTableOK).
+//@ table a_cardWireGroups {C03 C04} of cardinalityToWireCompatibilityGroup
+//@   ensures keys: forall c cardinality :: (c in cardinalityToWireCompatibilityGroup) <==> (c == cardinalityOptionalExplicitPresence || c == cardinalityOptionalImplicitPresence || c == cardinalityRequired || c == cardinalityRepeated || c == cardinalityMap)
+//@   ensures partition: forall c1 cardinality, c2 cardinality :: (c1 == cardinalityOptionalExplicitPresence || c1 == cardinalityOptionalImplicitPresence || c1 == cardinalityRequired || c1 == cardinalityRepeated || c1 == cardinalityMap) && (c2 == cardinalityOptionalExplicitPresence || c2 == cardinalityOptionalImplicitPresence || c2 == cardinalityRequired || c2 == cardinalityRepeated || c2 == cardinalityMap) ==> ((cardinalityToWireCompatibilityGroup[c1] == cardinalityToWireCompatibilityGroup[c2]) <==> ((ite(c1 == cardinalityOptionalExplicitPresence || c1 == cardinalityOptionalImplicitPresence, 10, ite(c1 == cardinalityRequired, 20, ite(c1 == cardinalityRepeated || c1 == cardinalityMap, 30, 0)))) == (ite(c2 == cardinalityOptionalExplicitPresence || c2 == cardinalityOptionalImplicitPresence, 10, ite(c2 == cardinalityRequired, 20, ite(c2 == cardinalityRepeated || c2 == cardinalityMap, 30, 0))))))
+//@ table a_cardWireJSONGroups {C03 C04} of cardinalityToWireJSONCompatibilityGroup
+//@   ensures keys: forall c cardinality :: (c in cardinalityToWireJSONCompatibilityGroup) <==> (c == cardinalityOptionalExplicitPresence || c == cardinalityOptionalImplicitPresence || c == cardinalityRequired || c == cardinalityRepeated || c == cardinalityMap)
+//@   ensures partition: forall c1 cardinality, c2 cardinality :: (c1 == cardinalityOptionalExplicitPresence || c1 == cardinalityOptionalImplicitPresence || c1 == cardinalityRequired || c1 == cardinalityRepeated || c1 == cardinalityMap) && (c2 == cardinalityOptionalExplicitPresence || c2 == cardinalityOptionalImplicitPresence || c2 == cardinalityRequired || c2 == cardinalityRepeated || c2 == cardinalityMap) ==> ((cardinalityToWireJSONCompatibilityGroup[c1] == cardinalityToWireJSONCompatibilityGroup[c2]) <==> ((ite(c1 == cardinalityOptionalExplicitPresence || c1 == cardinalityOptionalImplicitPresence, 10, ite(c1 == cardinalityRequired, 20, ite(c1 == cardinalityRepeated, 30, ite(c1 == cardinalityMap, 31, 0))))) == (ite(c2 == cardinalityOptionalExplicitPresence || c2 == cardinalityOptionalImplicitPresence, 10, ite(c2 == cardinalityRequired, 20, ite(c2 == cardinalityRepeated, 30, ite(c2 == cardinalityMap, 31, 0)))))))
+//
+// FIELD_WIRE_COMPATIBLE_CARDINALITY
+//@ func handleBreakingFieldWireCompatibleCardinality(responseWriter, request, field, previousField) (err)
+//@   property C03 C04
+//@   modifies ghost.annCount, ghost.annLocs, ghost.annFiles
+//@   requires table-matches-doc: a_cardWireTableOK(cardinalityToWireCompatibilityGroup)
+//@   ensures error-iff: err == nil <==> a_descOK(previousField) && a_descOK(field)
+//@   ensures changed-reported {C03}: err == nil && a_cardWireChanged(field, previousField) ==> ghost.annCount == old(ghost.annCount) + 1 && ghost.annLocs == add(old(ghost.annLocs), field.Location()) && ghost.annFiles == add(old(ghost.annFiles), field.File().Path())
+//@   ensures compatible-silent {C04}: err != nil || !a_cardWireChanged(field, previousField) ==> ghost.annCount == old(ghost.annCount) && ghost.annLocs == old(ghost.annLocs) && ghost.annFiles == old(ghost.annFiles)
+//@   reveal a_descOK, a_validCardinality, a_docCardWireGroup, a_docCardWireJSONGroup, a_cardWireTableOK, a_bothMapEntry, a_cardWireChanged
+//
+// FIELD_WIRE_JSON_COMPATIBLE_CARDINALITY
+//@ func handleBreakingFieldWireJSONCompatibleCardinality(responseWriter, request, field, previousField) (err)
+//@   property C03 C04
+//@   modifies ghost.annCount, ghost.annLocs, ghost.annFiles
+//@   requires table-matches-doc: a_cardWireJSONTableOK(cardinalityToWireJSONCompatibilityGroup)
+//@   ensures error-iff: err == nil <==> a_descOK(previousField) && a_descOK(field)
+//@   ensures changed-reported {C03}: err == nil && a_cardWireJSONChanged(field, previousField) ==> ghost.annCount == old(ghost.annCount) + 1 && ghost.annLocs == add(old(ghost.annLocs), field.Location()) && ghost.annFiles == add(old(ghost.annFiles), field.File().Path())
+//@   ensures compatible-silent {C04}: err != nil || !a_cardWireJSONChanged(field, previousField) ==> ghost.annCount == old(ghost.annCount) && ghost.annLocs == old(ghost.annLocs) && ghost.annFiles == old(ghost.annFiles)
+//@   reveal a_descOK, a_validCardinality, a_docCardWireGroup, a_docCardWireJSONGroup, a_cardWireJSONTableOK, a_bothMapEntry, a_cardWireJSONChanged
+//
+// ---------- ENUM_VALUE_SAME_NAME ----------
+//
+// When a previous name of the number is gone, every current value of that number is annotated at its number; otherwise
+// nothing is annotated. (getSortedEnumValueNames: contract in zz_verif_contracts_breaking_nodelete.go.)
+//@ trusted pure interface bufprotosource.EnumValue
+//@ func handleBreakingEnumValueSameName(responseWriter, request, nameToEnumValue, previousNameToEnumValue) (err)
+//@   property C03 C04
+//@   modifies ghost.annCount, ghost.annLocs, ghost.annFiles
+//@   ensures no-error: err == nil
+//@   ensures renamed-reported {C03}: a_valueNameLost(nameToEnumValue, previousNameToEnumValue) ==> (forall s string :: s in nameToEnumValue ==> ghost.annCount > old(ghost.annCount) && nameToEnumValue[s].NumberLocation() in ghost.annLocs && nameToEnumValue[s].File().Path() in ghost.annFiles)
+//@   ensures kept-silent {C04}: !a_valueNameLost(nameToEnumValue, previousNameToEnumValue) ==> ghost.annCount == old(ghost.annCount) && ghost.annLocs == old(ghost.annLocs) && ghost.annFiles == old(ghost.annFiles)
+//@   ensures only-those {C04}: forall l ref :: l in ghost.annLocs && !(l in old(ghost.annLocs)) ==> (exists s string :: s in nameToEnumValue && l == nameToEnumValue[s].NumberLocation())
+//@   reveal a_valueNameLost
+//@   loop 0 invariant ghost.annCount >= old(ghost.annCount)
+//@   loop 0 invariant forall s string :: s in $visited ==> ghost.annCount > old(ghost.annCount) && nameToEnumValue[s].NumberLocation() in ghost.annLocs && nameToEnumValue[s].File().Path() in ghost.annFiles
+//@   loop 0 invariant forall l ref :: l in ghost.annLocs && !(l in old(ghost.annLocs)) ==> (exists s string :: s in nameToEnumValue && l == nameToEnumValue[s].NumberLocation())
+//
